@@ -109,7 +109,9 @@ def state_hash(g):
     for k, v in sorted(vars(g).items()):
         if k == 'HOOKS':
             items.append((k, len(v)))
-        elif isinstance(v, (int, str, bool, type(None))):
+        elif isinstance(v, str):
+            items.append((k, 'str'))            # (module names / docstrings contain the per-history unique name)
+        elif isinstance(v, (int, bool, type(None))):
             items.append((k, repr(v)[:40]))
         elif isinstance(v, (dict, list, set)):
             items.append((k, type(v).__name__, len(v)))
